@@ -165,6 +165,9 @@ func (d *Ledger) recordMid(kind string, shard int, c *world.Call, mid int, dup b
 	sh := d.W.Shards[shard]
 	conc := world.Describe(kind, shard, c, mid)
 	conc["dup"] = dup
+	if d.Triple || d.Alloc {
+		conc["modes"] = map[bool]string{true: "triple,", false: ""}[d.Triple] + map[bool]string{true: "alloc", false: ""}[d.Alloc]
+	}
 	var pl []int64
 	used := int64(-1)
 	if kind == "exec" {
